@@ -920,3 +920,128 @@ func ruleResolveBeforeCompare(c *Ctx) {
 	c.Check(len(why) == 0, "c14.resolve-before-compare", "(*Query).exec", c.P.Pos(exec.Pos()), fmt.Sprintf("%d paths await and resolve first, %d paths have both stages idle", nActive, nIdle), strings.Join(uniq(why), "; "))
 	c.Check(!postTwice, "c14.resolve-before-compare", "(*Query).exec/run-once", c.P.Pos(exec.Pos()), "the post-processors run ahead of DISTINCT / ORDER BY are removed from the list before exec returns", "the post-processors that exec runs ahead of DISTINCT / ORDER BY stay on the list: the caller runs them again, and the one AWAIT registers evaluates its ASYNC call a second time (2N invocations for N rows)")
 }
+
+func init() {
+	for _, p := range []string{"C01", "C02", "C03", "C06", "C07"} {
+		register(p, ruleStageKeptFresh)
+	}
+}
+
+// freshAppendRoot: the slice an append grows goes back, through loop phis and earlier appends, to storage made on the
+// spot (make, an empty literal, nil); returns what else it may be.
+func freshAppendRoot(v ssa.Value) string {
+	bad := ""
+	seen := map[ssa.Value]bool{}
+	var root func(v ssa.Value)
+	root = func(v ssa.Value) {
+		if seen[v] || bad != "" {
+			return
+		}
+		seen[v] = true
+		switch x := v.(type) {
+		case *ssa.Phi:
+			for _, e := range x.Edges {
+				root(e)
+			}
+		case *ssa.Call:
+			if bi, isB := x.Call.Value.(*ssa.Builtin); isB && bi.Name() == "append" {
+				root(x.Call.Args[0])
+				return
+			}
+			bad = NewTB().Of(v).String()
+		case *ssa.MakeSlice:
+		case *ssa.Const:
+			if !x.IsNil() {
+				bad = x.String()
+			}
+		case *ssa.Slice:
+			if _, isAl := x.X.(*ssa.Alloc); isAl {
+				return
+			}
+			bad = NewTB().Of(v).String()
+		case *ssa.Lookup:
+			// the member list kept under a key of a map made by this call: nil at first, then what was appended
+			if _, isMM := x.X.(*ssa.MakeMap); isMM {
+				return
+			}
+			bad = NewTB().Of(v).String()
+		case *ssa.Extract:
+			if lk, isLk := x.Tuple.(*ssa.Lookup); isLk && x.Index == 0 {
+				if _, isMM := lk.X.(*ssa.MakeMap); isMM {
+					return
+				}
+			}
+			bad = NewTB().Of(v).String()
+		default:
+			bad = NewTB().Of(v).String()
+		}
+	}
+	root(v)
+	return bad
+}
+
+// ruleStageKeptFresh: the stages of the pipeline collect their output in storage of their own.
+func ruleStageKeptFresh(c *Ctx) {
+	c.Doc("stage.kept-fresh", "the pipeline stages that build a new row list (ExecSelect, ExecDistinct, ExecGroupBy) append onto storage made by that very call — never onto a reslice of their input: the input of a stage is the previous stage's list or, for a query without FROM rows of its own (`dual`, a source handed through unfiltered), the query's own source, the rows a CTE memoised or the caller's array; writing the output over it makes the second reader of the same table (a CTE read twice, a Query executed twice) see the first reader's projection")
+	n := 0
+	for _, name := range []string{"ExecSelect", "ExecDistinct", "ExecGroupBy"} {
+		f := c.P.Func(modPath, name)
+		if f == nil {
+			c.Unknown("stage.kept-fresh", name, "-", "anchor lost")
+			continue
+		}
+		c.Fn(name)
+		k := 0
+		deepInstrs(f, func(g *ssa.Function, _ *TB, _ *ssa.BasicBlock, in ssa.Instruction) {
+			call, ok := in.(*ssa.Call)
+			if !ok {
+				return
+			}
+			if bi, isB := call.Call.Value.(*ssa.Builtin); !isB || bi.Name() != "append" {
+				return
+			}
+			if _, isSl := call.Type().Underlying().(*types.Slice); !isSl || shortType(call.Type()) != "[]any" {
+				return
+			}
+			n++
+			k++
+			bad := freshAppendRoot(call.Call.Args[0])
+			c.Check(bad == "", "stage.kept-fresh", fmt.Sprintf("%s/append#%d", name, k), c.P.Pos(call.Pos()), "grows storage made by this call", "the stage's output is appended onto "+bad+", which is not storage made by this call: the stage overwrites its own input")
+		})
+	}
+	if n == 0 {
+		c.Unknown("stage.kept-fresh", "stages", "-", "no append in the stage functions")
+	}
+}
+
+// Cross registrations found necessary by mutation round 4 (a necessary condition of one property that lived only in
+// another property's rule set). register() ignores a rule that is already registered for the property.
+func init() {
+	// a Query field the per-dimension copy does not carry changes how WHERE / projection / scoping behave inside inner arrays
+	register("C01", ruleC08CopyFields)
+	register("C02", ruleC08CopyFields)
+	register("C07", ruleC08CopyFields)
+	// a column reference is read by the selector reader: its step dispatch and its cache are part of every clause that reads columns
+	register("C01", ruleC09StepDispatch)
+	register("C02", ruleC09StepDispatch)
+	for _, p := range []string{"C04", "C05", "C06", "C07"} {
+		register(p, ruleC09CacheKey)
+	}
+	// the unwrapper is how a selector reaches the data (`a.b` descends, a literal key does not shadow it)
+	register("C09", ruleC12UnwrapTable)
+	// nested statements see the data they were prepared over (Wrapped applies once, at the entry)
+	register("C02", ruleC17PrepareData)
+	register("C07", ruleC17PrepareData)
+	// who may call exec(): a union branch that runs exec() itself hands unresolved ASYNC slots to DISTINCT
+	register("C06", ruleC12ExecCallers)
+	register("C14", ruleC12ExecCallers)
+	// the scan and the stage chain of exec are what makes a CTE read twice equal its materialised rows, and what runs every row's SETVAR
+	register("C07", ruleExecPipeline, ruleExecKeptFresh)
+	register("C20", ruleExecPipeline)
+	register("C14", ruleExecPipeline)
+	// marker-returning immediate functions must be refused under ASYNC/SPIN whatever the spelling of their name
+	register("C12", ruleC14Immediate)
+	// built-in functions keep no package-level state: that is also why ASYNC.f(x) equals f(x) and concurrent queries do not interfere
+	register("C14", ruleC18Pure)
+	register("C13", ruleC18Pure)
+}
